@@ -399,7 +399,10 @@ impl G {
                         self.out.meta_fields += 1;
                         let mut f = self.keyed(s, used, "__schema");
                         let mut types = Field::new("types");
-                        types.sel = self.leafs(s, &["name"], true);
+                        types.sel = SelSet::new(vec![Selection::Field(Field::new("name"))]);
+                        if s.chance(1, 3) {
+                            types.sel.items.push(self.typename(s, &mut vec![]));
+                        }
                         let mut items = vec![Selection::Field(types)];
                         if s.chance(1, 3) {
                             let mut q = Field::new("queryType");
